@@ -132,6 +132,46 @@ def open_modes(path: Path) -> list[tuple[str, str, str]]:
     return out
 
 
+def param_defaults(names: set[str]) -> list[tuple[str, str, str]]:
+    """(file:function, parameter, default) for every function of the two packages that has a parameter called one of `names`.
+    default is "True" / "False" for a literal, "required" when the parameter has no default, "..." for an overload stub;
+    anything else is refused (fail-closed)."""
+    out = []
+    for base in (SRC, SPEC):
+        for path in sorted(base.rglob("*.py")):
+            rel = str(path.relative_to(base.parent))
+            tree = ast.parse(path.read_text())
+
+            def visit(node, prefix):
+                for child in ast.iter_child_nodes(node):
+                    if isinstance(child, (ast.FunctionDef, ast.AsyncFunctionDef)):
+                        if any((isinstance(d, ast.Name) and d.id == "overload") or (isinstance(d, ast.Attribute) and d.attr == "overload")
+                               for d in child.decorator_list):
+                            continue  # typing stubs: their defaults are not behaviour
+                        a = child.args
+                        pos = a.posonlyargs + a.args
+                        defaults = [None] * (len(pos) - len(a.defaults)) + list(a.defaults)
+                        for arg, d in list(zip(pos, defaults)) + list(zip(a.kwonlyargs, a.kw_defaults)):
+                            if arg.arg in names:
+                                if d is None:
+                                    val = "required"
+                                elif isinstance(d, ast.Constant) and isinstance(d.value, bool):
+                                    val = str(d.value)
+                                elif isinstance(d, ast.Constant) and d.value is Ellipsis:
+                                    val = "..."
+                                else:
+                                    raise ValueError(f"{rel}:{child.lineno}: default of {arg.arg} is not a boolean literal")
+                                out.append((f"{rel}:{prefix}{child.name}", arg.arg, val))
+                        visit(child, prefix + child.name + ".")
+                    elif isinstance(child, ast.ClassDef):
+                        visit(child, prefix + child.name + ".")
+                    else:
+                        visit(child, prefix)
+
+            visit(tree, "")
+    return out
+
+
 # functions on the read side (C18): every zarr open in them must be read-only
 READ_SIDE = {
     "core_io/_utils.py": ["open_storelike", "_detect_zarr_spec_version", "check_for_geff"],
@@ -195,6 +235,19 @@ def gen_consts() -> str:
         raise ValueError("read-side open calls not found where expected")
     lines.append("Definition read_side_opens : list (string * string * string) := [" +
                  "; ".join(f"({cstr(f)}, {cstr(c)}, {cstr(m)})" for f, c, m in rs) + "].")
+    lines.append("")
+    # defaults of the parameters that guard against clobbering / skipping validation, in every function that has them
+    pd = param_defaults({"overwrite", "structure_validation", "validate"})
+    for must in ("geff/core_io/_base_write.py:write_arrays", "geff/_graph_libs/_api_wrapper.py:write", "geff/convert/_ctc.py:from_ctc_to_geff",
+                 "geff/convert/_trackmate_xml.py:from_trackmate_xml_to_geff", "geff/convert/_dataframe.py:geff_to_csv", "geff/_cli.py:convert_ctc"):
+        if not any(f == must and prm == "overwrite" for f, prm, _ in pd):
+            raise ValueError(f"{must} no longer has an `overwrite` parameter")
+    for must, prm in (("geff/core_io/_base_write.py:write_arrays", "structure_validation"), ("geff/core_io/_base_read.py:read_to_memory", "structure_validation"),
+                      ("geff/core_io/_base_read.py:GeffReader.__init__", "validate")):
+        if not any(f == must and q == prm for f, q, _ in pd):
+            raise ValueError(f"{must} no longer has a `{prm}` parameter")
+    lines.append("Definition param_defaults : list (string * string * string) := [" +
+                 "; ".join(f"({cstr(f)}, {cstr(q)}, {cstr(v)})" for f, q, v in pd) + "].")
     lines.append("")
     lines.append("Definition write_arrays_calls : list string := [" + "; ".join(cstr(c) for c in wa) + "].")
     lines.append("Definition delete_geff_calls : list string := [" + "; ".join(cstr(c) for c in dg) + "].")
